@@ -135,7 +135,7 @@ partial def exprSize : Expr → Nat
   | _ => 1
 def handleExcavate (toks : List String) : String :=
   match parseExpr toks with
-  | some e => toSexpr (excavate mkRules mkNot e)
+  | some e => toSexpr (excavate mkRules mkNotR e)
   | none => "bad-op"
 def handleBurrow (toks : List String) : String :=
   match parseExpr toks with
